@@ -43,6 +43,7 @@ type SubSpec struct {
 
 type PubSpec struct {
 	Msgs [][]string `json:"msgs"` // topics of each message, published in order by one goroutine
+	Bad  []int      `json:"bad,omitempty"` // indexes of messages that violate the replayer's ID mode (Put must reject them)
 }
 
 type ShutSpec struct {
@@ -118,6 +119,9 @@ func genScenario(p profile) func(*rapid.T) Scenario {
 			var ps PubSpec
 			for k := 0; k < nm; k++ {
 				ps.Msgs = append(ps.Msgs, genTopicSet(t))
+				if (sc.Replayer == "finite" || sc.Replayer == "valid") && stats.Pct(t, "badmsg") < 12 {
+					ps.Bad = append(ps.Bad, k)
+				}
 			}
 			sc.Pubs = append(sc.Pubs, ps)
 		}
